@@ -452,6 +452,13 @@ fn commit_onchain(
 // evidence bookkeeping on the registrations the compressor announces
 // --------------------------------------------------------------------------
 
+/// hash of the raw bytes of a value, independent of its type: equal for an address,
+/// an asset id and a contract id with the same 32 bytes, and for a script and a
+/// predicate with the same code
+fn hb<T: AsRef<[u8]> + ?Sized>(x: &T) -> u64 {
+    hash64(&x.as_ref().to_vec())
+}
+
 /// distinct non-default registry-typed values a block's transactions carry
 /// (address, asset id, contract id, script code, predicate code); evidence only.
 fn referenced_values(block: &Block) -> [std::collections::HashSet<u64>; 5] {
@@ -461,22 +468,22 @@ fn referenced_values(block: &Block) -> [std::collections::HashSet<u64>; 5] {
             match i {
                 Input::Contract(c) => {
                     if c.contract_id != Default::default() {
-                        r[2].insert(hash64(&c.contract_id));
+                        r[2].insert(hb(&c.contract_id));
                     }
                 }
                 Input::CoinPredicate(c) => {
                     if c.predicate != fuel_core_types::fuel_tx::input::PredicateCode::default() {
-                        r[4].insert(hash64(&c.predicate));
+                        r[4].insert(hb(&c.predicate));
                     }
                 }
                 Input::MessageCoinPredicate(c) => {
                     if c.predicate != fuel_core_types::fuel_tx::input::PredicateCode::default() {
-                        r[4].insert(hash64(&c.predicate));
+                        r[4].insert(hb(&c.predicate));
                     }
                 }
                 Input::MessageDataPredicate(c) => {
                     if c.predicate != fuel_core_types::fuel_tx::input::PredicateCode::default() {
-                        r[4].insert(hash64(&c.predicate));
+                        r[4].insert(hb(&c.predicate));
                     }
                 }
                 _ => {}
@@ -488,15 +495,15 @@ fn referenced_values(block: &Block) -> [std::collections::HashSet<u64>; 5] {
             match o {
                 Output::Coin { to, asset_id, .. } | Output::Change { to, asset_id, .. } => {
                     if *to != Default::default() {
-                        r[0].insert(hash64(to));
+                        r[0].insert(hb(to));
                     }
                     if *asset_id != Default::default() {
-                        r[1].insert(hash64(asset_id));
+                        r[1].insert(hb(asset_id));
                     }
                 }
                 Output::ContractCreated { contract_id, .. } => {
                     if *contract_id != Default::default() {
-                        r[2].insert(hash64(contract_id));
+                        r[2].insert(hb(contract_id));
                     }
                 }
                 _ => {}
@@ -508,7 +515,7 @@ fn referenced_values(block: &Block) -> [std::collections::HashSet<u64>; 5] {
             Transaction::Script(t) => {
                 use fuel_core_types::fuel_tx::field::Script as _;
                 if !t.script().is_empty() {
-                    r[3].insert(hash64(t.script()));
+                    r[3].insert(hb(t.script()));
                 }
                 ins(t.inputs(), &mut r);
                 outs(t.outputs(), &mut r);
@@ -534,10 +541,10 @@ fn referenced_values(block: &Block) -> [std::collections::HashSet<u64>; 5] {
                     MintAssetId as _,
                 };
                 if m.input_contract().contract_id != Default::default() {
-                    r[2].insert(hash64(&m.input_contract().contract_id));
+                    r[2].insert(hb(&m.input_contract().contract_id));
                 }
                 if *m.mint_asset_id() != Default::default() {
-                    r[1].insert(hash64(m.mint_asset_id()));
+                    r[1].insert(hb(m.mint_asset_id()));
                 }
             }
         }
@@ -572,11 +579,11 @@ fn note_registrations(
 ) -> [usize; 5] {
     let r = c.registrations();
     let lists: [Vec<(u32, u64)>; 5] = [
-        r.address.iter().map(|(k, v)| (k.as_u32(), hash64(v))).collect(),
-        r.asset_id.iter().map(|(k, v)| (k.as_u32(), hash64(v))).collect(),
-        r.contract_id.iter().map(|(k, v)| (k.as_u32(), hash64(v))).collect(),
-        r.script_code.iter().map(|(k, v)| (k.as_u32(), hash64(v))).collect(),
-        r.predicate_code.iter().map(|(k, v)| (k.as_u32(), hash64(v))).collect(),
+        r.address.iter().map(|(k, v)| (k.as_u32(), hb(v))).collect(),
+        r.asset_id.iter().map(|(k, v)| (k.as_u32(), hb(v))).collect(),
+        r.contract_id.iter().map(|(k, v)| (k.as_u32(), hb(v))).collect(),
+        r.script_code.iter().map(|(k, v)| (k.as_u32(), hb(v))).collect(),
+        r.predicate_code.iter().map(|(k, v)| (k.as_u32(), hb(v))).collect(),
     ];
     let mut total = [0usize; 5];
     for (ks, list) in lists.iter().enumerate() {
@@ -604,6 +611,22 @@ fn note_registrations(
             view.last_key = Some(k);
             view.live.insert(k, vh);
             view.by_value.insert(vh, k);
+        }
+    }
+    // the same bytes registered in two keyspaces (each keyspace has its own keys)
+    for (ks, list) in lists.iter().enumerate() {
+        let others: &[usize] = if ks <= 2 { &[0, 1, 2] } else { &[3, 4] };
+        for (_, vh) in list {
+            if others
+                .iter()
+                .any(|o| *o != ks && views[*o].by_value.contains_key(vh))
+            {
+                report.count(if ks <= 2 {
+                    "c33.cross.id32_registered_in_several_keyspaces"
+                } else {
+                    "c33.cross.code_registered_as_script_and_predicate"
+                });
+            }
         }
     }
     total
@@ -651,7 +674,14 @@ fn run_session(
     } else {
         cfg
     };
-    let alpha = Alphabet::new(&mut rng, scfg.alphabet, scfg.fresh_pct);
+    let sharing = *pick(
+        &mut rng,
+        &[Sharing::None, Sharing::Half, Sharing::Half, Sharing::All, Sharing::All],
+    );
+    report.count(&format!("c33.sessions.sharing.{sharing:?}"));
+    let alpha = Alphabet::with_sharing(&mut rng, scfg.alphabet, scfg.fresh_pct, sharing);
+    // values seen in earlier blocks of this session, per keyspace (raw-byte hashes)
+    let mut seen: [std::collections::HashSet<u64>; 5] = Default::default();
     let chain_id = ChainId::new(rng.gen_range(0..3));
     let mut comp_db = CDb::in_memory();
     let mut decomp_db = CDb::in_memory();
@@ -833,6 +863,33 @@ fn run_session(
         let n_reg: usize = regs.iter().sum();
         report.add("c33.registrations", n_reg as u64);
         let refs = referenced_values(&block);
+        // byte-identical values in different keyspaces (evidence)
+        let n = refs[3].intersection(&refs[4]).count() as u64;
+        report.add("c33.cross.code.same_block", n);
+        let n = refs[4]
+            .iter()
+            .filter(|v| seen[3].contains(v) && !seen[4].contains(v))
+            .count() as u64;
+        report.add("c33.cross.code.script_then_predicate_later_block", n);
+        let n = refs[3]
+            .iter()
+            .filter(|v| seen[4].contains(v) && !seen[3].contains(v))
+            .count() as u64;
+        report.add("c33.cross.code.predicate_then_script_later_block", n);
+        for (x, y, name) in [
+            (0usize, 1usize, "address_asset"),
+            (0, 2, "address_contract"),
+            (1, 2, "asset_contract"),
+        ] {
+            let n = refs[x].intersection(&refs[y]).count() as u64;
+            report.add(&format!("c33.cross.id32.same_block.{name}"), n);
+            let n = refs[x].iter().filter(|v| seen[y].contains(v)).count()
+                + refs[y].iter().filter(|v| seen[x].contains(v)).count();
+            report.add(&format!("c33.cross.id32.other_block.{name}"), n as u64);
+        }
+        for ks in 0..5 {
+            seen[ks].extend(refs[ks].iter().copied());
+        }
         for ks in 0..5 {
             report.add("c33.registry_value_refs", refs[ks].len() as u64);
             // referenced values that needed no new key: served by a still valid older key
@@ -1015,6 +1072,15 @@ fn c33(args: &Args, report: &Report) {
                 report.require(&format!("c33.registrations.{name}"), 300);
             }
             report.require("c33.key_wraps", 40);
+            report.require("c33.cross.code.same_block", 300);
+            report.require("c33.cross.code.script_then_predicate_later_block", 100);
+            report.require("c33.cross.code.predicate_then_script_later_block", 100);
+            report.require("c33.cross.code_registered_as_script_and_predicate", 1000);
+            report.require("c33.cross.id32_registered_in_several_keyspaces", 2000);
+            for name in ["address_asset", "address_contract", "asset_contract"] {
+                report.require(&format!("c33.cross.id32.same_block.{name}"), 300);
+                report.require(&format!("c33.cross.id32.other_block.{name}"), 1000);
+            }
             report.require("c33.overwrites_of_live_key", 300);
             report.require("c33.reregistrations_of_known_value", 500);
             report.require("c33.evictor_moved_below_live_key", 300);
